@@ -3,22 +3,51 @@ package eventnotifier
 // Overlaid into keymasterd/eventnotifier at check time (never written under the source tree).
 // Gives the harness in cmd/keymasterd a subscriber whose channel it can look at: registration
 // and removal are the three statements handleConnection executes around its loop.
+//
+// The map is handled through reflection so that this file keeps compiling when the VALUE type of
+// transmitChannels changes (the production code only ranges over the keys): the key is the
+// subscriber's channel; the value is the channel itself when the value type accepts it, a fresh
+// channel that is never closed or sent on when the value type is some other channel type (a
+// "this subscriber is gone" signal: the harness subscriber never goes away by itself), else the
+// zero value.  A key type that does not accept a chan eventmon.EventV0 makes VerifAttach panic:
+// TestVerif_C20 then does not complete and TestVerif_C20S (exported API only) covers the ground.
 
-import "github.com/Cloud-Foundations/keymaster/proto/eventmon"
+import (
+	"reflect"
+
+	"github.com/Cloud-Foundations/keymaster/proto/eventmon"
+)
 
 const VerifBufferLength = bufferLength
 
 func (n *EventNotifier) VerifAttach() chan eventmon.EventV0 {
 	transmitChannel := make(chan eventmon.EventV0, bufferLength)
+	m := reflect.ValueOf(&n.transmitChannels).Elem()
+	mt := m.Type()
+	k := reflect.ValueOf(transmitChannel)
+	if mt.Kind() != reflect.Map || !k.Type().ConvertibleTo(mt.Key()) {
+		panic("verif_export: transmitChannels is not a map keyed by event channels: " + mt.String())
+	}
+	vt := mt.Elem()
+	var val reflect.Value
+	switch {
+	case k.Type().ConvertibleTo(vt):
+		val = k.Convert(vt)
+	case vt.Kind() == reflect.Chan:
+		val = reflect.MakeChan(reflect.ChanOf(reflect.BothDir, vt.Elem()), 0).Convert(vt)
+	default:
+		val = reflect.Zero(vt)
+	}
 	n.mutex.Lock()
-	n.transmitChannels[transmitChannel] = transmitChannel
+	m.SetMapIndex(k.Convert(mt.Key()), val)
 	n.mutex.Unlock()
 	return transmitChannel
 }
 
 func (n *EventNotifier) VerifDetach(transmitChannel chan eventmon.EventV0) {
+	m := reflect.ValueOf(&n.transmitChannels).Elem()
 	n.mutex.Lock()
-	delete(n.transmitChannels, transmitChannel)
+	m.SetMapIndex(reflect.ValueOf(transmitChannel).Convert(m.Type().Key()), reflect.Value{})
 	n.mutex.Unlock()
 }
 
